@@ -462,7 +462,9 @@ PROPS['C18'] = {
     'module': 'SuironVerif.Props.C18',
     'theorems': ['Suiron.C18.term_parsers_never_panic', 'Suiron.C18.parse_term_never_panics', 'Suiron.C18.parse_arguments_never_panics',
                  'Suiron.C18.parse_linked_list_never_panics', 'Suiron.C18.parse_complex_never_panics', 'Suiron.C18.parse_function_never_panics',
-                 'Suiron.C18.parse_query_never_panics', 'Suiron.C18.parse_subgoal_never_panics', 'Suiron.C18.tokenize_never_panics_partial',
+                 'Suiron.C18.parse_query_never_panics', 'Suiron.C18.parse_subgoal_never_panics', 'Suiron.C18.tokenize_never_panics', 'Suiron.C18.generate_goal_never_panics',
+                 'Suiron.C18.parse_rule_never_panics', 'Suiron.C18.tokenizer_output_shape', 'Suiron.C18.C18_term', 'Suiron.C18.C18_subgoal',
+                 'Suiron.C18.C18_query', 'Suiron.C18.C18_goal', 'Suiron.C18.C18_rule',
                  'Suiron.C18.parse_term_terminates', 'Suiron.C18.parse_arguments_terminates', 'Suiron.C18.parse_linked_list_terminates',
                  'Suiron.C18.parse_complex_terminates', 'Suiron.C18.parse_function_terminates', 'Suiron.C18.parse_query_terminates',
                  'Suiron.C18.parse_subgoal_terminates', 'Suiron.C18.tokenize_terminates', 'Suiron.C18.group_tokens_terminates',
@@ -477,11 +479,12 @@ PROPS['C18'] = {
     },
     'exhaustive_in': {'quick': True, 'thorough': True},
     'rule': P_RULE, 'design_ref': '5.18',
-    'assumptions': ["PARTIAL: proved for the term-level parsers, parse_query, parse_subgoal and the tokenizer (every index, slice, unwrap and panic! of the Rust code is an "
+    'assumptions': ["proved for all eight entry points (every index, slice, unwrap and panic! of the Rust code is an "
                     "explicit panic branch of the model, shown unreachable for every input); TERMINATION is proved for all eight entry points (the model's out-of-fuel "
                     "outcome is impossible: 3|s|+3 units of fuel for parse_term, 3|s|+4 for parse_subgoal, some fuel for generate_goal / parse_rule; the outcome does "
-                    "not depend on the fuel); that the token grouping stage of generate_goal / parse_rule never PANICS is not proved and is decided by the "
-                    "correspondence suite and the no-panic oracle; the fuel bounds recursion depth, not work: polynomial time is decided by the timed deep-nesting cases (D18)",
+                    "not depend on the fuel); the token grouping stage of generate_goal / parse_rule never panics by shape invariants carried from the tokenizer "
+                    "through group_tokens, group_and_tokens and group_or_tokens (Lemmas/ParseGroup.lean). Outside the theorems: the fidelity of the model "
+                    "(correspondence suite, no-panic oracle); the fuel bounds recursion depth, not work: polynomial time is decided by the timed deep-nesting cases (D18)",
                     "oracle on the implementation: every call returns Ok or Err (catch_unwind per call; goals and rules with parentheses nested 24-31 deep must come back within a second; a watchdog turns a call that does not return within 20 s into an abort)",
                     "float parsing (str::parse::<f64>) and char::is_alphabetic are parameters of the model; the driver supplies an exact decimal-to-double conversion and the "
                     "Unicode classification for Latin, Greek and Cyrillic letters; the generators stay inside that alphabet"],
@@ -550,13 +553,13 @@ NOT_APPLICABLE = {
 }
 
 LEVEL_TEXT = {
-    'C18': 'PARTIAL proof: every index, slice, unwrap and panic! of the parser is an explicit panic outcome of the Lean model; proved unreachable, for every input string, '
-           'every fuel and every instance of the std parameters, for parse_term / parse_arguments / parse_linked_list / parse_complex / parse_function / parse_query / '
-           'parse_subgoal and for the tokenizer. TERMINATION is proved for all eight entry points: the out-of-fuel outcome of the model is impossible (3|s|+3 units of fuel '
-           'for parse_term, 3|s|+4 for parse_subgoal, some fuel for generate_goal and parse_rule), and every parser is monotone in its fuel, so the outcome does not depend '
-           'on it. Not proved: that the token grouping stage of generate_goal / parse_rule never panics; the fuel bounds recursion depth, not work. Both are decided by '
-           'the correspondence suite (random, mutated, documented-spelling and ALL short strings through all eight entry points, timed deep-nesting cases) and the '
-           'no-panic oracle. The work on termination exposed defect D18 (exponential time on nested parentheses), repaired.',
+    'C18': 'Proved in Lean for every input string, every fuel and every instance of the std parameters: none of the eight entry points (parse_term, parse_linked_list, '
+           'parse_complex, parse_function, parse_query, parse_subgoal, generate_goal, parse_rule) reaches a panic branch of the model (each index, slice, unwrap and panic! '
+           'of the Rust code is one), including the token grouping stage (tokenizer output shape -> group_tokens -> group_and_tokens / group_or_tokens -> token_tree_to_goal), '
+           'and none fails to return (3|s|+3 units of fuel for parse_term, 3|s|+4 for parse_subgoal, some fuel for generate_goal / parse_rule; parsers are monotone in the '
+           'fuel, so the outcome does not depend on it): C18_term ... C18_rule. The fuel bounds recursion depth, not work: polynomial time is decided by timed deep-nesting '
+           'cases; the work on termination exposed defect D18 (exponential time on nested parentheses), repaired. The model is tied to the code by the correspondence '
+           'suite (random, mutated, documented-spelling and ALL short strings through all eight entry points) and the no-panic oracle.',
     'C19': 'PARTIAL proof: the printer model is proved to parenthesise exactly the nested operators the parser would regroup and to lay out rules and unifications as '
            'documented; parse(show v) = v is proved for token-level terms. The round trip for structured terms, goals and rules is decided by the grammar stream on the '
            'implementation, with the model parser and printer compared on every case. Nested parenthesised groups are generated since repair D18 (former finding F2).',
